@@ -1,6 +1,6 @@
 """C09 — the default codec is the rate fixed by the selection rule; API layers agree."""
 import re
-from . import core
+from . import core, summ
 from .core import op_place
 
 EXPLANATION = (
@@ -32,6 +32,9 @@ def run(ctx):
     ctx.rule('C09.a-decision-table', 'abstract evaluation of the decision over the 5 feasible ordering points equals the documented rule')
     ctx.rule('C09.b-single-source', 'supports/new/reset of encoder and decoder all use the one decision fn on (original_count, recovery_count); high/low codec uses are governed by its value')
     ctx.rule('C09.c-delegation', 'DefaultRate* methods forward to the inner codec; ReedSolomon* methods forward to DefaultRate*<DefaultEngine>')
+    ctx.rule('C09.e-handover-reset-complete', 'the work object a rate switch hands to the other dedicated codec is completely reconfigured by the explicit reset, so that the default codec equals a fresh dedicated one (clause shared with C05.a)')
+    from . import resetrules
+    ctx.guard('C09.analysable', ctx.shared, {'X.full': 'C09.e-handover-reset-complete'}, resetrules.check_reset_discipline, ctx, ctx.facts(cfgs[0]), cfgs[0], 'X.drop', 'X.recv', 'X.full')
     for cfg in cfgs:
         facts = ctx.facts(cfg)
         ctx.guard('C09.analysable', check, ctx, facts, cfg)
@@ -337,7 +340,8 @@ def check(ctx, facts, cfg):
             ctx.violation('C09.c-delegation', 'anchor-missing', 'anchor missing: %s' % adt, fn=adt, cfg=cfg)
             continue
         flds = [(fl['name'], fl['ty']) for v in a['variants'] for fl in v['fields']]
-        if flds != [('0', 'rate::rate_default::DefaultRate%s<engine::engine_default::DefaultEngine>' % side)]:
+        inner_field = flds[0][0] if len(flds) == 1 else None
+        if [t for _, t in flds] != ['rate::rate_default::DefaultRate%s<engine::engine_default::DefaultEngine>' % side]:
             ctx.violation('C09.c-delegation', 'wrapper-state', '%s holds %s: it must be exactly a DefaultRate%s<DefaultEngine> (extra state can make the layers disagree)' % (adt, flds, side),
                           site=a['span'], fn=adt, cfg=cfg)
         else:
@@ -359,12 +363,13 @@ def check(ctx, facts, cfg):
                 elif [b.canon_op(x) for x in crate_calls[0][1]['args']] != [('param', n) for n in params]:
                     bad = 'arguments not passed in order'
             elif fn.name == 'new':
-                ks = [t['callee'].get('key') for bb, t in crate_calls]
+                SM = summ.summaries(facts)
+                ks = [SM.through_forwarders(t['callee'].get('key')) for bb, t in crate_calls]
                 want = want_prefix + 'new'
                 if sorted(ks) != sorted([want, 'engine::engine_default::DefaultEngine::new']):
                     bad = 'calls %s' % ks
                 else:
-                    t = [t for bb, t in crate_calls if t['callee'].get('key') == want][0]
+                    t = [t for bb, t in crate_calls if SM.through_forwarders(t['callee'].get('key')) == want][0]
                     args = [b.canon_op(x) for x in t['args']]
                     exp3 = [('param', n) for n in params]
                     if args[:3] != exp3:
@@ -381,7 +386,7 @@ def check(ctx, facts, cfg):
                     t = crate_calls[0][1]
                     recv = core.show(b.canon_op(t['args'][0]))
                     rest = [b.canon_op(x) for x in t['args'][1:]]
-                    if 'self' not in recv or '.0' not in recv:
+                    if 'self' not in recv or ('.%s' % inner_field) not in recv:
                         bad = 'receiver is %s' % recv
                     elif rest != [('param', n) for n in params[1:]]:
                         bad = 'arguments are not the own parameters in order'
